@@ -44,6 +44,7 @@ type writerOpts struct {
 	initClass   int // bytes writer: 0 nil, 1 empty with cap, 2 partial, 3 full
 	initLen     int
 	failAt      int // sink fails at this Write call (1-based), 0 never
+	failMode    int // what the failing Write reports (see doubles.Sink.FailMode)
 	retain      bool
 	cotenant    bool
 }
@@ -73,7 +74,7 @@ func wOpsString(ops []wOp) string {
 // the region model. Returns the non-triviality flag.
 func runWriterHistory(cs *drv.Case, ops []wOp, o writerOpts) bool {
 	var w bufiox.Writer
-	sink := &doubles.Sink{FailAt: o.failAt, Err: doubles.ErrCustom}
+	sink := &doubles.Sink{FailAt: o.failAt, Err: doubles.ErrCustom, FailMode: o.failMode}
 	var target []byte
 	var init *san.Canary
 	var initCopy []byte
@@ -102,7 +103,7 @@ func runWriterHistory(cs *drv.Case, ops []wOp, o writerOpts) bool {
 	ct := &coTenant{r: cs.R}
 	defer ct.done()
 
-	var expectAll []byte // everything that should have reached the sink so far (successful flushes)
+	var expectAll []byte      // everything that should have reached the sink so far (successful flushes)
 	var pending []interface{} // *region or []byte payload copies, in call order
 	var live []*region
 	var payloads []*san.Canary
